@@ -341,4 +341,7 @@ add("C18", "failed inversion refusal built but not raised", "nifty/re/evi.py", "
 add("C20", "type refusal returned", "nifty/re/evi.py", "        raise TypeError(msg)", "        return TypeError(msg)", "R20.4")
 add("C17", "missing function refusal dropped", "nifty/re/optimize.py", "            raise ValueError(\"no function specified\")", "            ValueError(\"no function specified\")", "R17.9")
 add("C27", "boolean parse refusal dropped", "nifty/cl/minimization/config/optimize_kl_config.py", "                        raise ValueError(f\"{tmp[1]} is not boolean\")", "                        ValueError(f\"{tmp[1]} is not boolean\")", "R27.12")
+add("C26", "pseudo-variance for complex samples", "nifty/cl/probing.py", "            self._M2 = self._M2 + (delta.conjugate()*delta2).real", "            self._M2 = self._M2 + delta*delta2", "R26.11")
+add("C26", "shareRange start without the min", "nifty/cl/utilities.py", "    lo = myshare*nbase + min(myshare, additional)", "    lo = myshare*nbase + additional if myshare >= additional else myshare", "R26.9")
+add("C22", "shareRange end ignores the extra item", "nifty/cl/utilities.py", "    hi = lo + nbase + int(myshare < additional)", "    hi = lo + nbase + int(myshare <= additional)", "R22.9")
 VARIANTS = V
